@@ -69,6 +69,19 @@ chk("C18", "exploration",
     "Trusts the Rust model and the driver's rendering; keys stay within |k| < 2^30 where Int.compare cannot overflow; sequences are sampled.",
     "runtime monitoring: reference-model oracle over generated operation histories", "DESIGN.md §4 C18")
 
+chk("C02", "translation_validation",
+    "tests.AllTests and loop-centred generator programs are lowered to MIR by the real compiler; the MIR interpreter (wasm integer semantics) runs the unoptimized MIR and the MIR after each of the 32 configurations of optimize_sources, after each per-function pass alone and after inlining alone (hook); printed lines, ending and a step bound (200x + 2e6) are compared. A failing loop configuration is attributed to a loop sub-pass by disabling it (hook).",
+    "Trusts the MIR interpreter (calibrated on tests/snapshot.txt before and after optimization); `x + 0` on a non-int is treated as the IR's move idiom; programs are sampled.",
+    "runtime monitoring: differential oracle (MIR interpreter before vs after each optimization configuration and pass)", "DESIGN.md §4 C02")
+chk("C06", "fault_enumeration",
+    "Fault operators that make a program statically incorrect by the language definition alone (string operand of arithmetic/comparison, int operand of && || ! ::, non-bool if condition, one argument too many/few, unresolved variable/class/member/module/import member, int literal outside 32 bits, deleted match arm, deleted or mistyped interface member, and cross-module templates for private access, violated bounds, wrong type-argument counts) are spliced at parser-reported locations into accepted generator programs and the repository's samples; every mutant must get >= 1 diagnostic located in the edited module and compile_sources must return no code.",
+    "Soundness of each operator rests on the language definition; splice locations come from the repository's parser (judged by C14); sites are sampled (3 / 6 per operator and base program).",
+    "runtime monitoring: single-fault injection with a 'rejected and not compiled' oracle", "DESIGN.md §4 C06")
+chk("C09", "exploration",
+    "A seed-independent catalogue (one line / block / doc comment in every gap between two tokens of corpus files, generated declaration modules and expression triples; quick runs one residue class of seven) plus random multi-comment insertions are formatted at the product's width 100: the second formatting must equal the first, and the word sequence of all comments (independent tokenizer, lexer-style normalisation; multiset inside the import section) must be preserved. A lost or reordered comment is attributed to its slot (innermost syntax node : previous token class | next token class).",
+    "Width 100 only (the width of `format` and the language server). The 223 slot signatures in which the pinned parser/printer pair loses, reorders or destabilises a comment were harvested from thorough runs and are listed as known findings; a loss in any other slot is a violation.",
+    "runtime monitoring: idempotence and comment-conservation oracles over systematic comment insertion", "DESIGN.md §4 C09")
+
 NA_REASON = "check under construction in this round (machinery not yet registered)"
 m = {
  "version": 1,
@@ -77,7 +90,7 @@ m = {
    "guard": "--cfg samlang_verif",
    "enable": "RUSTFLAGS='--cfg samlang_verif' cargo build --release --offline (the harness path-depends on /repo/crates/*, so /repo's working tree is rebuilt with hooks on)",
    "baseline_off_cmd": "cd /repo && cargo test --workspace --no-fail-fast --offline",
-   "source_commits": ["ef9c61d"],
+   "source_commits": ["ef9c61d", "74255b3", "c496234"],
    "add_only": True,
  },
  "engines": [
